@@ -246,6 +246,10 @@ def bench_loop(chk, prop, cfg, tier, rng, wd, finish=False):
         clones_part(chk, thorough, wd)
         import check_taskset
         check_taskset.taskset_part(chk, thorough, wd)
+        # beyond the property's anchors: the one-shot slot that carries the replies of driver-side queries
+        # (process_query, QuerySource actions) on the release/acquire memory model
+        import slotdefs
+        slotdefs.slot_part(chk, thorough, wd)
     if prop == "C05":
         task_part(chk, rng, thorough, wd)
         # a Runnable duplicated by the executor's queues (overflow of the local queue into the injector, stealing) would
